@@ -229,6 +229,7 @@ type Frame struct {
 	results    Val
 	loopEntry  map[int]map[string]string // loop ordinal -> heap snapshot at loop entry (for old-at-entry)
 	parent     *Frame
+	lockSnap map[string]string
 	heldAtLoop []string
 	retInstr   ssa.Instruction
 }
